@@ -688,7 +688,6 @@ Lemma stoph_basic : forall c s s0 o0 b, StopH c s s0 o0 b -> Forall basic o0.
 Proof.
   intros c s s0 o0 b H. inv H.
   - constructor.
-  - repeat constructor.
   - constructor; [exact I|]. constructor; [exact I|]. apply drop_obs_basic.
   - destruct (ws s); repeat constructor.
   - constructor; [exact I|]. constructor; [exact I|]. apply drop_obs_basic.
@@ -856,10 +855,11 @@ Proof.
   intros c s o Hn. destruct o; try congruence; cbn [step].
   - destruct (cq_open s); [destruct (gap s)|]; reflexivity.
   - destruct (gap s); reflexivity.
-  - reflexivity.
+  - destruct (sq_open s); reflexivity.
   - destruct (mem_nat cid (inprog s)); reflexivity.
   - reflexivity.
   - destruct (gap s); reflexivity.
+  - reflexivity.
 Qed.
 
 Lemma step_inv : forall c s o, Inv c s -> finished s = false -> Inv c (fst (step c s o)).
@@ -870,11 +870,12 @@ Proof.
     destruct (gap s) eqn:G; constructor; sel; auto; intros _; sel;
       rewrite app_length; cbn [length]; lia.
   - destruct (gap s) eqn:G; [|exact I0]. constructor; sel; auto. intros _; sel. lia.
-  - constructor; sel; auto. intros _; sel. exact C.
+  - destruct (sq_open s); [|exact I0]. constructor; sel; auto. intros _; sel. exact C.
   - destruct (mem_nat cid (inprog s)) eqn:M; [|exact I0]. constructor; sel; auto.
     intros _; sel. apply remove_nat_length in M. lia.
   - constructor; sel; auto. intros _; sel. exact C.
   - destruct (gap s) eqn:G; constructor; sel; auto; intros _; sel; try rewrite G; lia.
+  - constructor; sel; auto. intros _; sel. exact C.
 Qed.
 
 Lemma run_Forall : forall c (Q : list obs -> Prop),
@@ -893,11 +894,12 @@ Proof.
   intros c s o Hn. destruct o; try congruence; cbn [step].
   - destruct (cq_open s); [destruct (gap s)|]; constructor.
   - destruct (gap s); constructor.
-  - constructor.
+  - destruct (sq_open s); constructor.
   - destruct (mem_nat cid (inprog s)); cbn [snd]; [|constructor].
     constructor; [exact I|apply wake_obs_basic].
   - constructor.
   - destruct (gap s); constructor.
+  - constructor.
 Qed.
 
 Lemma op_eq_poll_dec : forall o, {o = PollW} + {o <> PollW}.
@@ -1125,11 +1127,12 @@ Proof.
           rewrite <- app_assoc; reflexivity.
       * injection Es as <- <-. rewrite Eo. reflexivity.
     + destruct (gap s); injection Es as <- <-; sel; destruct (cq_open s); reflexivity.
-    + injection Es as <- <-. sel. destruct (cq_open s); reflexivity.
+    + destruct (sq_open s); injection Es as <- <-; sel; destruct (cq_open s); reflexivity.
     + destruct (mem_nat cid (inprog s)); injection Es as <- <-; sel; destruct (cq_open s); reflexivity.
     + injection Es as <- <-. sel. destruct (cq_open s); reflexivity.
     + destruct (gap s); injection Es as <- <-; sel; destruct (cq_open s); cbn [pushes_from pushes_of];
         rewrite ?app_nil_r; reflexivity.
+    + injection Es as <- <-. sel. destruct (cq_open s); reflexivity.
 Qed.
 
 Lemma is_prefix_app : forall a r, is_prefix a (a ++ r) = true.
@@ -1247,15 +1250,13 @@ Proof.
 Qed.
 
 Lemma stoph_main : forall c s s0 o0 b, StopH c s s0 o0 b ->
-  (b = false /\ filter is_main o0 = []) \/
-  (b = true /\ (filter is_main o0 = [Done] \/ filter is_main o0 = [Panic POverflow])).
+  (b = false /\ filter is_main o0 = []) \/ (b = true /\ filter is_main o0 = [Done]).
 Proof.
   intros c s s0 o0 b H. inv H.
   - left. auto.
-  - right. auto.
-  - right. split; auto. left. cbn [filter is_main]. now rewrite drop_obs_main.
+  - right. split; auto. cbn [filter is_main]. now rewrite drop_obs_main.
   - left. split; auto. destruct (ws s); reflexivity.
-  - right. split; auto. left. cbn [filter is_main]. now rewrite drop_obs_main.
+  - right. split; auto. cbn [filter is_main]. now rewrite drop_obs_main.
 Qed.
 
 Lemma adj_single : forall p e, okprev p -> calm e -> adj_from p [e] = true.
@@ -1265,7 +1266,6 @@ Lemma adj_nil : forall p, okprev p -> adj_from p [] = true.
 Proof. intros [a|] H; auto. Qed.
 
 Lemma calm_done : calm Done. Proof. split; reflexivity. Qed.
-Lemma calm_ovf : calm (Panic POverflow). Proof. split; reflexivity. Qed.
 Lemma calm_idx : calm (Panic PIndex). Proof. split; reflexivity. Qed.
 Lemma calm_call : forall k cid, calm (Call k cid). Proof. split; reflexivity. Qed.
 
@@ -1285,15 +1285,16 @@ Proof.
   - (* R err *) cbn [filter is_main adj_from]. destruct p as [a|].
     + rewrite adj_pair_ok; auto.
     + reflexivity.
-  - (* Shutdown *) apply shutdown_step_main in H1. destruct H1 as [->|[->| ->]].
+  - (* Shutdown *) apply shutdown_step_main in H1. destruct H1 as [->| ->].
     + now apply adj_nil.
     + apply adj_single; auto. apply calm_done.
-    + apply adj_single; auto. apply calm_ovf.
   - (* A idle *) rewrite main_pollready by auto. rewrite <- (app_nil_r o).
     destruct (adj_R o [] p PR NE Hp) as (p' & Hp' & ->). now apply adj_nil.
   - (* A closed *) rewrite filter_app, main_pollready by auto. cbn [filter is_main].
     rewrite drop_obs_main.
     destruct (adj_R o0 [Done] p PR NE Hp) as (p' & Hp' & ->). apply adj_single; auto. apply calm_done.
+  - (* A orphan *) rewrite main_pollready by auto. rewrite <- (app_nil_r o).
+    destruct (adj_R o [] p PR NE Hp) as (p' & Hp' & ->). now apply adj_nil.
   - (* A idx *) rewrite filter_app, main_pollready by auto. cbn [filter is_main].
     destruct (adj_R o0 [Panic PIndex] p PR NE Hp) as (p' & Hp' & ->). apply adj_single; auto. apply calm_idx.
   - (* finished *) now apply adj_nil.
@@ -1344,7 +1345,7 @@ Proof.
         -- destruct H as [(X & _)|(_ & o1 & H1 & ->)]; [discriminate|].
            rewrite filter_app, Em. cbn [app]. eapply sstep_ret_adj; eauto.
         -- destruct H as [(_ & _ & -> & _)|(X & _)]; [|discriminate].
-           destruct Em as [-> | ->]; apply adj_single; auto using calm_done, calm_ovf.
+           rewrite Em. apply adj_single; auto using calm_done.
     + assert (HS : SStep c s0 s1 o NRet).
       { destruct Hp as [[-> H]|[-> (sa & oa & b & HS & H)]]; auto.
         inv HS; try congruence.
@@ -1401,10 +1402,11 @@ Proof.
     { destruct o; try congruence; cbn [step].
       - destruct (cq_open s); [destruct (gap s)|]; reflexivity.
       - destruct (gap s); reflexivity.
-      - reflexivity.
+      - destruct (sq_open s); reflexivity.
       - destruct (mem_nat cid (inprog s)); cbn [snd filter is_main]; auto. apply wake_obs_main.
       - reflexivity.
-      - destruct (gap s); reflexivity. }
+      - destruct (gap s); reflexivity.
+      - reflexivity. }
     rewrite E. reflexivity.
 Qed.
 
@@ -1520,6 +1522,7 @@ Proof.
     + (* R err *) right; right; right. split; auto. split; [right; now left|]. exists k. now left.
     + (* A idle *) left. split; auto.
     + (* A closed *) congruence.
+    + (* A orphan *) congruence.
     + (* A idx *) exfalso. unfold tokens_ok in Tk.
       match goal with X : cq s0 = _ |- _ => rewrite X in Tk end. inv Tk. cbn [fst] in *.
       match goal with X : check_ready _ _ = _ |- _ => apply check_ready_length in X end.
@@ -1639,6 +1642,7 @@ Proof.
   - match goal with X : ws s = WShutdown _ _ _ |- _ => rewrite X in L end. contradiction.
   - auto.
   - split; auto. apply Forall_app2; auto. constructor; [exact I|apply drop_obs_good].
+  - auto.
   - split; auto. apply Forall_app2; auto. repeat constructor.
   - split; auto. apply Forall_app2; auto. repeat constructor.
   - auto.
@@ -1737,11 +1741,12 @@ Proof.
           rewrite <- app_assoc; reflexivity.
       * injection Es as <- <-. rewrite Eo. reflexivity.
     + destruct (gap s); injection Es as <- <-; sel; destruct (cq_open s); reflexivity.
-    + injection Es as <- <-. sel. destruct (cq_open s); reflexivity.
+    + destruct (sq_open s); injection Es as <- <-; sel; destruct (cq_open s); reflexivity.
     + destruct (mem_nat cid (inprog s)); injection Es as <- <-; sel; destruct (cq_open s); reflexivity.
     + injection Es as <- <-. sel. destruct (cq_open s); reflexivity.
     + destruct (gap s); injection Es as <- <-; sel; destruct (cq_open s); cbn [pushes_from pushes_of];
         rewrite ?app_nil_r; reflexivity.
+    + injection Es as <- <-. sel. destruct (cq_open s); reflexivity.
 Qed.
 
 Theorem none_lost : forall c ops, live (exec c (init c) ops) ->
@@ -1771,15 +1776,10 @@ Qed.
 Lemma poll_ret : forall c s s1 o, pstep c true s = (s1, o, NRet) -> poll c s = (s1, o).
 Proof. intros c s s1 o H. unfold poll, fuel_of. cbn [piter]. now rewrite H. Qed.
 
-Lemma total_val : forall c s, counter s <> 0%Z -> total c s = TVal (counter s - 1).
-Proof. intros c s H. unfold total. apply Z.eqb_neq in H. now rewrite H. Qed.
-
-(* outside the send/inc gap `total()` is the number of connections queued or in progress *)
-Theorem total_is_inflight : forall c s, Inv c s -> finished s = false -> gap s = false ->
-  total c s = TVal (Z.of_nat (length (cq s)) + Z.of_nat (length (inprog s))).
-Proof.
-  intros c s [_ _ C] F G. specialize (C F). rewrite G in C. rewrite total_val by lia. f_equal. lia.
-Qed.
+(* `total()` is exactly the number of connections in progress, whatever the accept side's
+   send/inc gap is doing *)
+Theorem total_exact : forall s, total s = Z.of_nat (length (inprog s)).
+Proof. reflexivity. Qed.
 
 (* the value a guard drop sees is >= 1: `fetch_sub(1) - 1` cannot underflow *)
 Theorem finish_pre_positive : forall c s cid, Inv c s -> finished s = false ->
@@ -1791,22 +1791,21 @@ Qed.
 
 (* --- forced / idle: the very next poll acknowledges and resolves, nothing is awaited ------ *)
 Theorem stop_forced : forall c s sid rest,
-  sq s = (false, sid) :: rest -> counter s <> 0%Z -> counter s <> 1%Z ->
+  sq s = (false, sid) :: rest -> inprog s <> [] ->
   poll c s = (set_ws (set_svcs (set_sq s rest) (shutdown_svcs true (svcs s))) WDone,
               StopAck sid false :: Done
               :: drop_obs (set_svcs (set_sq s rest) (shutdown_svcs true (svcs s)))).
 Proof.
-  intros c s sid rest Esq H0 H1. apply poll_ret. unfold pstep, stop_handler. rewrite Esq.
-  rewrite total_val by (sel; exact H0). sel.
-  destruct (counter s - 1 =? 0)%Z eqn:E; [apply Z.eqb_eq in E; lia|]. reflexivity.
+  intros c s sid rest Esq Hn. apply poll_ret. unfold pstep, stop_handler. rewrite Esq.
+  change (total (set_sq s rest)) with (total s). apply total_nonzero in Hn. rewrite Hn. reflexivity.
 Qed.
 
 Theorem stop_idle : forall c s g sid rest,
-  sq s = (g, sid) :: rest -> counter s = 1%Z ->
+  sq s = (g, sid) :: rest -> inprog s = [] ->
   poll c s = (set_ws (set_sq s rest) WDone, StopAck sid true :: Done :: drop_obs (set_sq s rest)).
 Proof.
-  intros c s g sid rest Esq H1. apply poll_ret. unfold pstep, stop_handler. rewrite Esq.
-  rewrite total_val by (sel; lia). sel. rewrite H1. reflexivity.
+  intros c s g sid rest Esq Hi. apply poll_ret. unfold pstep, stop_handler. rewrite Esq.
+  change (total (set_sq s rest)) with (total s). apply total_zero in Hi. rewrite Hi. reflexivity.
 Qed.
 
 (* what is dropped with the worker future: every queued connection is released (never called),
@@ -1820,25 +1819,6 @@ Proof.
   - intros x Hx. apply in_or_app. left. apply in_map_iff. eauto.
   - intros x Hx. apply in_or_app. right. apply in_or_app. left. apply in_map_iff. eauto.
   - intros dl st sid E. apply in_or_app. right. apply in_or_app. right. rewrite E. now left.
-Qed.
-
-(* --- the send/inc gap: total() at counter 0 ------------------------------------------------ *)
-Theorem stop_in_gap_checked : forall c s g sid rest,
-  sq s = (g, sid) :: rest -> counter s = 0%Z -> c_ovf c = true ->
-  poll c s = (set_ws (set_sq s rest) WPanicked, [Panic POverflow]).
-Proof.
-  intros c s g sid rest Esq H0 Ho. apply poll_ret. unfold pstep, stop_handler. rewrite Esq.
-  unfold total. sel. rewrite H0, Ho. reflexivity.
-Qed.
-
-Theorem stop_in_gap_wrapping_forced : forall c s sid rest,
-  sq s = (false, sid) :: rest -> counter s = 0%Z -> c_ovf c = false ->
-  poll c s = (set_ws (set_svcs (set_sq s rest) (shutdown_svcs true (svcs s))) WDone,
-              StopAck sid false :: Done
-              :: drop_obs (set_svcs (set_sq s rest) (shutdown_svcs true (svcs s)))).
-Proof.
-  intros c s sid rest Esq H0 Ho. apply poll_ret. unfold pstep, stop_handler. rewrite Esq.
-  unfold total. sel. rewrite H0, Ho. reflexivity.
 Qed.
 
 (* --- graceful ----------------------------------------------------------------------------- *)
@@ -1861,10 +1841,10 @@ Proof.
     apply Forall_app2; eauto. unfold wake_obs. destruct (dec_wakes c cnt); repeat constructor.
 Qed.
 
-(* entering Shutdown: with n > 0 in flight a graceful stop is NOT acknowledged by this poll; the
-   1 s timer starts now, start_from = now, the queue is drained (released, never called) *)
+(* entering Shutdown: with connections in progress a graceful stop is NOT acknowledged by this
+   poll; the 1 s timer starts now, start_from = now, the queue is drained (released, never called) *)
 Theorem stop_graceful_enter : forall c s sid rest,
-  sq s = (true, sid) :: rest -> counter s <> 0%Z -> counter s <> 1%Z ->
+  sq s = (true, sid) :: rest -> inprog s <> [] ->
   exists o cnt,
     drain c (cq s) (counter s) = (cnt, o) /\
     poll c s = (set_counter (set_cq (set_ws (set_svcs (set_sq s rest) (shutdown_svcs false (svcs s)))
@@ -1872,12 +1852,11 @@ Theorem stop_graceful_enter : forall c s sid rest,
                 (match ws s with WShutdown _ _ sid0 => [StopLost sid0] | _ => [] end) ++ o)
     /\ no_ack_done o /\ (forall x, In x (cq s) -> In (Released (snd x)) o).
 Proof.
-  intros c s sid rest Esq H0 H1.
+  intros c s sid rest Esq Hn.
   destruct (drain c (cq s) (counter s)) as [cnt o] eqn:Ed. exists o, cnt. split; auto.
   split; [|split; [eapply drain_quiet; eauto|eapply drain_released; eauto]].
   apply poll_ret. unfold pstep, stop_handler. rewrite Esq.
-  rewrite total_val by (sel; exact H0). sel.
-  destruct (counter s - 1 =? 0)%Z eqn:E; [apply Z.eqb_eq in E; lia|].
+  change (total (set_sq s rest)) with (total s). apply total_nonzero in Hn. rewrite Hn.
   unfold state_step. sel. unfold shutdown_step. sel. rewrite Ed. sel.
   destruct (now s <? now s + 1000)%Z eqn:En; [|apply Z.ltb_ge in En; lia].
   reflexivity.
@@ -1907,23 +1886,21 @@ Proof.
   - eapply drain_released; eauto.
 Qed.
 
-(* at or after the tick, with `left` = counter after the drain:
-   left = 1 (idle)                          -> ack true, Done
-   left > 1 and now - start >= timeout      -> ack false, Done
-   left > 1 and now - start <  timeout      -> no ack, timer re-armed for now + 1 s *)
+(* at or after the tick:
+   nothing in progress                                 -> ack true, Done
+   in progress and now - start >= shutdown_timeout     -> ack false, Done
+   in progress and now - start <  shutdown_timeout     -> no ack, timer re-armed for now + 1 s *)
 Theorem shutdown_tick_idle : forall c s dl start sid,
-  ws s = WShutdown dl start sid -> sq s = [] -> (dl <= now s)%Z ->
-  (counter s - Z.of_nat (length (cq s)) = 1)%Z ->
+  ws s = WShutdown dl start sid -> sq s = [] -> (dl <= now s)%Z -> inprog s = [] ->
   exists o, In (StopAck sid true) o /\ In Done o /\ calls_of o = []
     /\ (forall x, In x (cq s) -> In (Released (snd x)) o)
     /\ ws (fst (poll c s)) = WDone /\ snd (poll c s) = o.
 Proof.
   intros c s dl start sid Ew Esq Hn Hc. rewrite (poll_shutdown c s dl start sid Ew Esq).
   unfold shutdown_step. destruct (drain c (cq s) (counter s)) as [cnt o] eqn:Ed. sel.
-  pose proof (drain_counter _ _ _ _ _ Ed) as Ec. pose proof (drain_released _ _ _ _ _ Ed) as Er.
-  pose proof (drain_basic _ _ _ _ _ Ed) as Eb.
-  apply Z.ltb_ge in Hn. rewrite Hn. rewrite total_val by (sel; lia). sel.
-  replace (cnt - 1 =? 0)%Z with true by (symmetry; apply Z.eqb_eq; lia).
+  pose proof (drain_released _ _ _ _ _ Ed) as Er. pose proof (drain_basic _ _ _ _ _ Ed) as Eb.
+  apply Z.ltb_ge in Hn. rewrite Hn.
+  change (total (set_counter (set_cq s []) cnt)) with (total s). apply total_zero in Hc. rewrite Hc.
   eexists. cbn [finish fst snd]. repeat split; try reflexivity.
   - apply in_or_app. left. apply in_or_app. right. now left.
   - apply in_or_app. right. now left.
@@ -1936,17 +1913,16 @@ Qed.
 
 Theorem shutdown_tick_timeout : forall c s dl start sid,
   ws s = WShutdown dl start sid -> sq s = [] -> (dl <= now s)%Z ->
-  (1 < counter s - Z.of_nat (length (cq s)))%Z -> (c_timeout c <= now s - start)%Z ->
+  inprog s <> [] -> (c_timeout c <= now s - start)%Z ->
   exists o, In (StopAck sid false) o /\ In Done o /\ calls_of o = []
     /\ (forall x, In x (cq s) -> In (Released (snd x)) o)
     /\ ws (fst (poll c s)) = WDone /\ snd (poll c s) = o.
 Proof.
   intros c s dl start sid Ew Esq Hn Hc Ht. rewrite (poll_shutdown c s dl start sid Ew Esq).
   unfold shutdown_step. destruct (drain c (cq s) (counter s)) as [cnt o] eqn:Ed. sel.
-  pose proof (drain_counter _ _ _ _ _ Ed) as Ec. pose proof (drain_released _ _ _ _ _ Ed) as Er.
-  pose proof (drain_basic _ _ _ _ _ Ed) as Eb.
-  apply Z.ltb_ge in Hn. rewrite Hn. rewrite total_val by (sel; lia). sel.
-  replace (cnt - 1 =? 0)%Z with false by (symmetry; apply Z.eqb_neq; lia).
+  pose proof (drain_released _ _ _ _ _ Ed) as Er. pose proof (drain_basic _ _ _ _ _ Ed) as Eb.
+  apply Z.ltb_ge in Hn. rewrite Hn.
+  change (total (set_counter (set_cq s []) cnt)) with (total s). apply total_nonzero in Hc. rewrite Hc.
   apply Z.leb_le in Ht. rewrite Ht.
   eexists. cbn [finish fst snd]. repeat split; try reflexivity.
   - apply in_or_app. left. apply in_or_app. right. now left.
@@ -1960,16 +1936,15 @@ Qed.
 
 Theorem shutdown_tick_wait : forall c s dl start sid,
   ws s = WShutdown dl start sid -> sq s = [] -> (dl <= now s)%Z ->
-  (1 < counter s - Z.of_nat (length (cq s)))%Z -> (now s - start < c_timeout c)%Z ->
+  inprog s <> [] -> (now s - start < c_timeout c)%Z ->
   exists o cnt, drain c (cq s) (counter s) = (cnt, o) /\
     poll c s = (set_ws (set_counter (set_cq s []) cnt) (WShutdown (now s + 1000) start sid), o)
     /\ no_ack_done o /\ (forall x, In x (cq s) -> In (Released (snd x)) o).
 Proof.
   intros c s dl start sid Ew Esq Hn Hc Ht. rewrite (poll_shutdown c s dl start sid Ew Esq).
   unfold shutdown_step. destruct (drain c (cq s) (counter s)) as [cnt o] eqn:Ed. sel.
-  pose proof (drain_counter _ _ _ _ _ Ed) as Ec.
-  apply Z.ltb_ge in Hn. rewrite Hn. rewrite total_val by (sel; lia). sel.
-  replace (cnt - 1 =? 0)%Z with false by (symmetry; apply Z.eqb_neq; lia).
+  apply Z.ltb_ge in Hn. rewrite Hn.
+  change (total (set_counter (set_cq s []) cnt)) with (total s). apply total_nonzero in Hc. rewrite Hc.
   replace (c_timeout c <=? now s - start)%Z with false by (symmetry; apply Z.leb_gt; lia).
   exists o, cnt. repeat split; auto.
   - eapply drain_quiet; eauto.
@@ -1979,12 +1954,10 @@ Qed.
 (* --- every acknowledgement, in every poll, has one of the lawful causes -------------------- *)
 Definition ack_cond (c : cfg) (s : st) (sid : nat) (b : bool) : Prop :=
   (exists g rest, sq s = (g, sid) :: rest /\
-     ((b = true /\ total c s = TVal 0) \/
-      (b = false /\ g = false /\ exists n, total c s = TVal n /\ n <> 0%Z)))
+     ((b = true /\ inprog s = []) \/ (b = false /\ g = false /\ inprog s <> [])))
   \/ (sq s = [] /\ exists dl start, ws s = WShutdown dl start sid /\ (dl <= now s)%Z /\
-      ((b = true /\ (counter s - Z.of_nat (length (cq s)) = 1)%Z) \/
-       (b = false /\ (counter s - Z.of_nat (length (cq s)) <> 1)%Z
-        /\ (c_timeout c <= now s - start)%Z))).
+      ((b = true /\ inprog s = []) \/
+       (b = false /\ inprog s <> [] /\ (c_timeout c <= now s - start)%Z))).
 
 Definition passive (e : obs) : Prop :=
   match e with StopAck _ _ | Done => False | _ => True end.
@@ -2011,9 +1984,11 @@ Proof.
   intros. eapply Forall_impl; [|eapply drain_quiet; eauto]. intros []; cbn; tauto.
 Qed.
 
-(* a live state's step acknowledges nothing; it resolves only when the accept side is gone *)
+(* a live state's step acknowledges nothing; it resolves only when the accept side AND the stop
+   side are gone *)
 Lemma sstep_live_quiet : forall c s s1 o nx, SStep c s s1 o nx -> live s ->
-  (forall sid b, ~ In (StopAck sid b) o) /\ (In Done o -> cq_open s = false /\ nx = NRet).
+  (forall sid b, ~ In (StopAck sid b) o)
+  /\ (In Done o -> cq_open s = false /\ stop_closed s = true /\ nx = NRet).
 Proof.
   intros c s s1 o nx H L. unfold live in L.
   inv H;
@@ -2033,21 +2008,22 @@ Lemma shutdown_step_acks : forall c s dl start sid s1 o,
   shutdown_step c s dl start sid = (s1, o) ->
   (forall sid' b, In (StopAck sid' b) o ->
      sid' = sid /\ (dl <= now s)%Z /\
-     ((b = true /\ (counter s - Z.of_nat (length (cq s)) = 1)%Z) \/
-      (b = false /\ (counter s - Z.of_nat (length (cq s)) <> 1)%Z /\ (c_timeout c <= now s - start)%Z)))
+     ((b = true /\ inprog s = []) \/
+      (b = false /\ inprog s <> [] /\ (c_timeout c <= now s - start)%Z)))
   /\ (In Done o -> exists b, In (StopAck sid b) o).
 Proof.
   intros c s dl start sid s1 o H. unfold shutdown_step in H.
   destruct (drain c (cq s) (counter s)) as [cnt o1] eqn:Ed.
-  pose proof (drain_counter _ _ _ _ _ Ed) as Ec. pose proof (drain_passive _ _ _ _ _ Ed) as Pp.
+  pose proof (drain_passive _ _ _ _ _ Ed) as Pp.
   sel. destruct (now s <? dl)%Z eqn:En.
   { inv H. split; [intros ? ? X; exfalso; revert X; now apply passive_noack|].
     intros X; exfalso; revert X; now apply passive_nodone. }
-  apply Z.ltb_ge in En. unfold total in H. sel.
-  assert (K : forall b, (b = true /\ (cnt = 1)%Z) \/ (b = false /\ (cnt <> 1)%Z /\ (c_timeout c <= now s - start)%Z) ->
+  apply Z.ltb_ge in En.
+  change (total (set_counter (set_cq s []) cnt)) with (total s) in H.
+  assert (K : forall b, (b = true /\ inprog s = []) \/ (b = false /\ inprog s <> [] /\ (c_timeout c <= now s - start)%Z) ->
      (forall sid' b', In (StopAck sid' b') ((o1 ++ [StopAck sid b]) ++ Done :: drop_obs (set_ws (set_counter (set_cq s []) cnt) WUnavailable)) ->
         sid' = sid /\ (dl <= now s)%Z /\
-        ((b' = true /\ (cnt = 1)%Z) \/ (b' = false /\ (cnt <> 1)%Z /\ (c_timeout c <= now s - start)%Z)))
+        ((b' = true /\ inprog s = []) \/ (b' = false /\ inprog s <> [] /\ (c_timeout c <= now s - start)%Z)))
      /\ (In Done ((o1 ++ [StopAck sid b]) ++ Done :: drop_obs (set_ws (set_counter (set_cq s []) cnt) WUnavailable)) ->
          exists b0, In (StopAck sid b0) ((o1 ++ [StopAck sid b]) ++ Done :: drop_obs (set_ws (set_counter (set_cq s []) cnt) WUnavailable)))).
   { intros b Hb. split.
@@ -2057,26 +2033,13 @@ Proof.
         * inv Hin. auto.
       + exfalso. revert Hin. apply passive_noack, drop_obs_passive.
     - intros _. exists b. apply in_or_app. left. apply in_or_app. right. now left. }
-  rewrite <- Ec.
-  destruct (cnt =? 0)%Z eqn:E0.
-  - apply Z.eqb_eq in E0. destruct (c_ovf c).
-    + inv H. split; [intros sid' b X|intros X]; exfalso; apply in_app_or in X;
-        destruct X as [X|[X|[]]]; try discriminate; revert X;
+  destruct (total s =? 0)%Z eqn:E0.
+  - apply total_zero in E0. inv H. apply K. left. auto.
+  - apply total_nonzero in E0. destruct (c_timeout c <=? now s - start)%Z eqn:Et.
+    + inv H. apply K. right. apply Z.leb_le in Et. auto.
+    + inv H. split; [intros sid' b X|intros X]; exfalso; revert X;
         [now apply passive_noack|now apply passive_nodone].
-    + cbn in H. destruct (c_timeout c <=? now s - start)%Z eqn:Et.
-      * inv H. apply K. right. apply Z.leb_le in Et. repeat split; auto. lia.
-      * inv H. split; [intros sid' b X|intros X]; exfalso; revert X;
-          [now apply passive_noack|now apply passive_nodone].
-  - apply Z.eqb_neq in E0. destruct (cnt - 1 =? 0)%Z eqn:E1.
-    + apply Z.eqb_eq in E1. inv H. apply K. left. split; auto. lia.
-    + apply Z.eqb_neq in E1. destruct (c_timeout c <=? now s - start)%Z eqn:Et.
-      * inv H. apply K. right. apply Z.leb_le in Et. repeat split; auto. lia.
-      * inv H. split; [intros sid' b X|intros X]; exfalso; revert X;
-          [now apply passive_noack|now apply passive_nodone].
 Qed.
-
-Lemma total_set_sq : forall c s x, total c (set_sq s x) = total c s.
-Proof. reflexivity. Qed.
 
 Lemma stoph_acks : forall c s s0 o0 b, StopH c s s0 o0 b ->
   (forall sid bb, In (StopAck sid bb) o0 -> ack_cond c s sid bb)
@@ -2084,7 +2047,6 @@ Lemma stoph_acks : forall c s s0 o0 b, StopH c s s0 o0 b ->
 Proof.
   intros c s s0 o0 b H. inv H.
   - split; [intros ? ? []|intros []].
-  - split; [intros ? ? [X|[]]; discriminate|intros [X|[]]; discriminate].
   - split.
     + intros sid' bb [X|[X|X]]; try discriminate.
       * inv X. left. exists g, rest. split; auto.
@@ -2095,33 +2057,47 @@ Proof.
     + intros X. exfalso. destruct (ws s); cbn in X; intuition discriminate.
   - split.
     + intros sid' bb [X|[X|X]]; try discriminate.
-      * inv X. left. exists false, rest. split; auto. right. repeat split; auto. exists n. auto.
+      * inv X. left. exists false, rest. split; auto.
       * exfalso. revert X. apply passive_noack, drop_obs_passive.
     + intros _. exists sid, false. now left.
+Qed.
+
+Lemma sstep_sqopen : forall c s s1 o nx, SStep c s s1 o nx -> sq_open s1 = sq_open s.
+Proof.
+  intros c s s1 o nx H. inv H; sel; auto.
+  unfold shutdown_step in H1. destruct (drain c (cq s) (counter s)) as [cnt o1]. sel.
+  destruct (now s <? dl)%Z; [inv H1; reflexivity|].
+  destruct (total _ =? 0)%Z; [inv H1; reflexivity|].
+  destruct (c_timeout c <=? now s - start)%Z; inv H1; reflexivity.
 Qed.
 
 Lemma poll_ack_done : forall c s, Inv c s -> finished s = false ->
   (forall sid b, In (StopAck sid b) (snd (poll c s)) -> ack_cond c s sid b)
   /\ (In Done (snd (poll c s)) ->
-      (exists sid b, In (StopAck sid b) (snd (poll c s))) \/ cq_open s = false).
+      (exists sid b, In (StopAck sid b) (snd (poll c s)))
+      \/ (cq_open s = false /\ sq_open s = false)).
 Proof.
   intros c s I0 F.
   assert (K : (true = false -> live s /\ sq s = []) ->
     (forall sid b, In (StopAck sid b) (snd (poll c s)) -> ack_cond c s sid b)
     /\ (In Done (snd (poll c s)) ->
-        (exists sid b, In (StopAck sid b) (snd (poll c s))) \/ cq_open s = false)).
+        (exists sid b, In (StopAck sid b) (snd (poll c s)))
+        \/ (cq_open s = false /\ sq_open s = false))).
   2:{ apply K. discriminate. }
   apply (poll_ind c (fun top s _ o => (top = false -> live s /\ sq s = []) ->
     (forall sid b, In (StopAck sid b) o -> ack_cond c s sid b)
-    /\ (In Done o -> (exists sid b, In (StopAck sid b) o) \/ cq_open s = false))); auto.
+    /\ (In Done o -> (exists sid b, In (StopAck sid b) o) \/ (cq_open s = false /\ sq_open s = false)))); auto.
   - intros top s0 s1 o I1 F1 Hp HL. apply pstep_cases in Hp.
+    assert (SC : forall x, stop_closed x = true -> sq_open x = false).
+    { intros x. unfold stop_closed. destruct (sq x); [|discriminate]. destruct (sq_open x); auto. }
     assert (SS : forall o1, SStep c s0 s1 o1 NRet -> sq s0 = [] ->
               (forall sid b, In (StopAck sid b) o1 -> ack_cond c s0 sid b)
-              /\ (In Done o1 -> (exists sid b, In (StopAck sid b) o1) \/ cq_open s0 = false)).
+              /\ (In Done o1 -> (exists sid b, In (StopAck sid b) o1)
+                                \/ (cq_open s0 = false /\ sq_open s0 = false))).
     { intros o1 H1 Esq. destruct (live_dec s0) as [L|NL].
       - destruct (sstep_live_quiet _ _ _ _ _ H1 L) as [Q1 Q2]. split.
         + intros sid b X. exfalso. eapply Q1; eauto.
-        + intros X. right. now apply Q2.
+        + intros X. right. destruct (Q2 X) as (A & B & _). auto.
       - unfold live in NL. inv H1; try (rewrite H in NL; exfalso; apply NL; exact I).
         + destruct (shutdown_step_acks _ _ _ _ _ _ _ H0) as [A1 A2]. split.
           * intros sid' b X. destruct (A1 _ _ X) as (-> & Hd & Hc). right. split; auto.
@@ -2132,7 +2108,7 @@ Proof.
     + (* inside the Available loop: the state is live *)
       destruct (HL eq_refl) as [L _]. destruct (sstep_live_quiet _ _ _ _ _ H L) as [Q1 Q2]. split.
       * intros sid b X. exfalso. eapply Q1; eauto.
-      * intros X. right. now apply Q2.
+      * intros X. right. destruct (Q2 X) as (A & B & _). auto.
     + destruct (stoph_acks _ _ _ _ _ HS) as [A1 A2].
       destruct H as [(-> & -> & -> & _)|(-> & o1 & H1 & ->)].
       * split; [exact A1|intros X; left; exact (A2 X)].
@@ -2162,29 +2138,20 @@ Proof.
       * congruence.
       * unfold live in L2. rewrite E in L2. exact L2.
     + intros X. apply in_app_or in X. destruct X as [X|X].
-      * destruct (Q2 X) as [_ Y]. congruence.
-      * destruct (IH2 X) as [(sid & b & Y)|Y].
+      * destruct (Q2 X) as (_ & _ & Y). congruence.
+      * destruct (IH2 X) as [(sid & b & Y)|[Y1 Y2]].
         -- left. exists sid, b. apply in_or_app. auto.
-        -- right. erewrite <- sstep_open; eauto.
+        -- right. erewrite <- sstep_open, <- sstep_sqopen; eauto.
 Qed.
 
-(* an acknowledgement `true` means: nothing in flight (up to the one connection of the
-   send/inc gap); `false` means a forced stop or an elapsed shutdown_timeout *)
+(* an acknowledgement `true` means: NO connection is in progress — exactly, also while the accept
+   side is inside its send/inc gap; `false` means a forced stop or an elapsed shutdown_timeout *)
 Theorem ack_true_means_idle : forall c s sid, Inv c s -> finished s = false ->
-  In (StopAck sid true) (snd (poll c s)) ->
-  (Z.of_nat (length (inprog s)) <= (if gap s then 1 else 0))%Z
-  /\ (gap s = false -> inprog s = []).
+  In (StopAck sid true) (snd (poll c s)) -> inprog s = [].
 Proof.
   intros c s sid I0 F H. destruct (poll_ack_done c s I0 F) as [A _]. apply A in H.
-  destruct I0 as [_ _ C]. specialize (C F).
-  assert (K : (Z.of_nat (length (inprog s)) <= (if gap s then 1 else 0))%Z).
-  { destruct H as [(g & rest & E & [[_ T]|[X _]])|(_ & dl & start & E & _ & [[_ T]|[X _]])];
-      try discriminate.
-    - unfold total in T. destruct (counter s =? 0)%Z eqn:E0.
-      + destruct (c_ovf c); [discriminate|]. inv T.
-      + inv T. destruct (gap s); lia.
-    - destruct (gap s); lia. }
-  split; auto. intros G. rewrite G in K. destruct (inprog s); auto. cbn [length] in K. lia.
+  destruct H as [(g & rest & E & [[_ T]|[X _]])|(_ & dl & start & E & _ & [[_ T]|[X _]])];
+    try discriminate; auto.
 Qed.
 
 Theorem ack_false_means_forced_or_timeout : forall c s sid, Inv c s -> finished s = false ->
@@ -2197,10 +2164,11 @@ Proof.
     try discriminate; eauto.
 Qed.
 
-(* the worker future resolves only with an acknowledgement, or because the accept side is gone *)
+(* the worker future resolves only with an acknowledgement, or because BOTH the accept side and
+   the server side (every stop sender) are gone *)
 Theorem done_means_ack_or_closed : forall c s, Inv c s -> finished s = false ->
   In Done (snd (poll c s)) ->
-  (exists sid b, In (StopAck sid b) (snd (poll c s))) \/ cq_open s = false.
+  (exists sid b, In (StopAck sid b) (snd (poll c s))) \/ (cq_open s = false /\ sq_open s = false).
 Proof. intros c s I0 F. apply (poll_ack_done c s I0 F). Qed.
 
 (* C06_drain, run level: once the worker has left the serving states no service is ever called *)
